@@ -1,6 +1,6 @@
 (* C04 -- property theorems only; statements pinned in Pins_C04.v. *)
 From Coq Require Import String List Arith Bool ZArith NArith.
-From SV Require Import gen.Gen_C04 c04.Model_C04 c04.Proofs_C04.
+From SV Require Import gen.Gen_C04 c04.Model_C04 c04.Proofs_C04 c04.Proofs_C04_Queue.
 Import ListNotations.
 
 (* generated facts *)
@@ -53,6 +53,42 @@ Theorem Safe_collection : forall c h r h2,
               vecs := vecs h2; stale := stale h2 |} x = Some s' /\
     sval s' = sval s /\ live s' = true.
 Proof. exact full_collection_keeps_reachable. Qed.
+
+(* ---- the marker's bounded work queue (local queue of fixed capacity, overflow to a shared queue) *)
+(* generated facts: both paths of push_back enqueue the pushed value, the drain loop empties both
+   queues, every root is enqueued, the capacity is positive *)
+Theorem marker_queue_facts :
+  pq_spill gen_pq = true /\ pq_local gen_pq = true /\ pq_drain gen_pq = true /\ pq_roots gen_pq = true /\ 1 <= pq_cap gen_pq.
+Proof. exact gen_pq_ok. Qed.
+
+(* for every capacity >= 1 such a marker flags exactly what the unbounded work list flags *)
+Theorem C04_mark_complete_bounded_queue : forall trav q, 1 <= pq_cap q ->
+  pq_spill q = true -> pq_local q = true -> pq_drain q = true ->
+  forall fuel1 fuel2 h wl h1 nb1 nv1 h2 nb2 nv2,
+  (forall x, flagged h x = false) ->
+  mark_pq trav q fuel1 h ([], wl) 0 0 = Ok (h1, nb1, nv1) ->
+  mark_loop trav fuel2 h wl 0 0 = Ok (h2, nb2, nv2) ->
+  forall x, flagged h1 x = flagged h2 x.
+Proof. exact bounded_queue_equiv. Qed.
+
+(* Heap::mark with the queue as the code has it (generated capacity and path facts): every reachable
+   slot is flagged; and it never runs out of fuel *)
+Theorem mark_complete_bounded : forall h r h' nb nv,
+  mark_bounded marker_par gen_pq (reset_marks h) r = Ok (h', nb, nv) ->
+  forall x, reach h (all_roots r) x -> flagged h' x = true.
+Proof. exact mark_bounded_complete_lemma. Qed.
+
+Theorem mark_bounded_fuel_suffices : forall trav q h r, mark_bounded trav q h r <> OutOfFuel.
+Proof. exact mark_bounded_no_out_of_fuel. Qed.
+
+(* a push_back that drops the value when the local queue is full loses reachable slots (capacity 2,
+   four boxes behind one vector) *)
+Theorem lossy_queue_refuted :
+  exists st h' nb nv x,
+    wide_state = Ok st /\
+    mark_bounded marker_par lossy_pq (reset_marks (hp st)) (rt st) = Ok (h', nb, nv) /\
+    reachb (hp st) (all_roots (rt st)) x = true /\ flagged h' x = false.
+Proof. exact lossy_queue_refuted_lemma. Qed.
 
 (* the recycler as it was before the repair violates the property in the model (replayed on the engine
    by the check: box held by thread-local storage) *)
